@@ -500,8 +500,21 @@ func Enumerate(full string, dims []Dim, maxDev int, yield func(p Point) bool) er
 	if maxDev < 0 {
 		maxDev = len(dims)
 	}
-	_, err := rec(0, maxDev)
-	return err
+	ok, err := rec(0, maxDev)
+	if err != nil || !ok {
+		return err
+	}
+	// a bounded enumeration from the default value never reaches the fully populated values: add that family
+	varying := 0
+	for _, d := range dims {
+		if len(d.Alts) > 1 {
+			varying++
+		}
+	}
+	if maxDev < varying {
+		return EnumerateFull(full, dims, yield)
+	}
+	return nil
 }
 
 // SpaceSize is the number of points with at most maxDev deviations (capped at 1<<40).
@@ -526,4 +539,55 @@ func SpaceSize(dims []Dim, maxDev int) int64 {
 		t += x
 	}
 	return t
+}
+
+// EnumerateFull yields the fully populated values of a message: every dimension at its first non-default alternative,
+// and one dimension in turn at each of its other alternatives (so every member of every oneof is the selected one once,
+// beside everything else being set). These are the values a bounded-deviation enumeration from the default value does not
+// reach, and the only ones that satisfy several `required` rules at once.
+func EnumerateFull(full string, dims []Dim, yield func(p Point) bool) error {
+	build := func(vary, alt int) (Point, error) {
+		msg, err := NewMessage(full)
+		if err != nil {
+			return Point{}, err
+		}
+		p := Point{Msg: msg}
+		for i, d := range dims {
+			a := 0
+			if len(d.Alts) > 1 {
+				a = 1
+			}
+			if i == vary {
+				a = alt
+			}
+			d.Alts[a].Set(msg.ProtoReflect())
+			if a != 0 {
+				p.Deviate++
+			}
+		}
+		p.Labels = []string{"full"}
+		if vary >= 0 {
+			p.Labels = append(p.Labels, dims[vary].Name+"="+dims[vary].Alts[alt].Label)
+		}
+		return p, nil
+	}
+	p, err := build(-1, 0)
+	if err != nil {
+		return err
+	}
+	if !yield(p) {
+		return nil
+	}
+	for i, d := range dims {
+		for a := 2; a < len(d.Alts); a++ {
+			p, err := build(i, a)
+			if err != nil {
+				return err
+			}
+			if !yield(p) {
+				return nil
+			}
+		}
+	}
+	return nil
 }
